@@ -211,6 +211,16 @@ def check_metric(run, pts, recs, presentation="tensors", reverse=False):
     rel.freeze_data()
     by = {r["pt"]: r["out"] for r in recs}
     fr = lambda x: Fraction(x[0], x[1])
+    # s_to_st first, before any request has cached the shift vector: K_00 = beta^i beta^j K_ij, K_0k = beta^i K_ik
+    got = rel.s_to_st(K.copy()).reshape((4, 4, tot))
+    for k in range(n):
+        want = np.array([float(fr(x)) for x in by[k + 1]["Kdown4"]]).reshape(4, 4)
+        run.count(("metric", "s_to_st", k))
+        if np.abs(got[..., k] - want).max() > 1e-11 * max(1.0, np.abs(want).max()):
+            run.violation({"clause": "MetricAlgebra", "key": "s_to_st", "inputs": presentation},
+                          f"[inputs given as {presentation}] s_to_st(K_ij) at the grid point with inputs {pts[k]} = {got[..., k].round(10).tolist()}, exact value "
+                          f"{want.round(10).tolist()} (K_00 = beta^i beta^j K_ij, K_0k = beta^i K_ik)", {"point": pts[k], "key": "s_to_st"})
+            break
     keys = {"betadown3": (3,), "gammadet": (), "gammaup3": (3, 3), "betamag": (), "gtt": (), "gdet": (), "nup4": (4,), "Ktrace": (),
             "Kup3": (3, 3), "Adown3": (3, 3)}
     if reverse:
@@ -318,6 +328,16 @@ def run(tier, seed):
     rm2 = tlc_part({"Part": '"metric"', "Points": ptla2})
     run.add_tlc(rm2, f"Pointwise: 3+1 metric algebra at {len(pts2)} points with beta^x = 0 (shift given by its non-zero components only)")
     check_metric(run, pts2, [p for p in rm2.printed if "out" in p], "partial-shift")
+    # the shift along one axis only, handed over by that single component key
+    for ax in range(3):
+        pts3 = [dict(p, b=[(p["b"][ax] or 2) if i == ax else 0 for i in range(3)]) for p in pts[60:90]]
+        ptla3 = "<<" + ", ".join("[a2 |-> %d, b |-> <<%d, %d, %d>>, g |-> <<%s>>, k |-> <<%s>>]" % (
+            p["a2"], p["b"][0], p["b"][1], p["b"][2], ", ".join(map(str, p["g"])), ", ".join(map(str, p["k"]))) for p in pts3) + ">>"
+        rm3 = tlc_part({"Part": '"metric"', "Points": ptla3})
+        if rm3.violated:
+            raise RuntimeError("Pointwise spec violates " + rm3.violated)
+        run.add_tlc(rm3, f"Pointwise: 3+1 metric algebra at {len(pts3)} points with the shift along {'xyz'[ax]} only (given by that component alone)")
+        check_metric(run, pts3, [p for p in rm3.printed if "out" in p], "partial-shift")
     run.sample({"matrix_state": r3.printed[100] if len(r3.printed) > 100 else None, "division_state": rd.printed[7], "metric_point": pts[0]})
     run.exhaustive = True
     run.rule = ("TLC enumerates every symmetric 3x3 (and 4x4) matrix over a 3-value (2-value in quick) entry set - a complete interpolation grid for "
